@@ -46,6 +46,14 @@ CURATED = [
     ("{[#A]}.{#A=C1c2ccccc2-c2ccccc12}", False),
     ("{[#A]}.{#A=c1ccc2c(c1)CCc1ccccc1-2}", False),
     ("{[#A][#B]}.{#A=C1([$])c2ccccc2-c2ccccc12,#B=[$]CC}", False),
+    # cis/trans-annotated double bonds whose substituents carry further atoms
+    ("{[#A][#B]}.{#A=CC/C=C\\C[$],#B=[$]CO}", False),
+    ("{[#A]}.{#A=OC/C=C/CO}", False),
+    ("{[#A][#B]}.{#A=CC/C=C/C=C\\C[$],#B=[$]c1ccccc1}", False),
+    ("{[#A]|2}.{#A=[$]C/C(C)=C\\C[$]}", False),
+    # beads that carry a weight of their own (annotation of the coarse node)
+    ("{[#A;0.5][#B;2.0][#A]}.{#A=[$]CC,#B=[$]C([C;0.25])[$]}", False),
+    ("{[#P;w=3][#Q;w=0.1]}.{#P=[#a][#b;0.5][>],#Q=[<][#a]}.{#a=[$]CO[$],#b=[$]C[$]}", False),
 ]
 # molecules with more than 100 atoms (rare: the real engine needs about a second for them)
 BIG = [
@@ -107,7 +115,7 @@ def generate(run_seed, prop, tier="quick"):
     ops = []
     n_ops = rng.randint(2, 7)
     pool = ["roundtrip", "embed", "embed", "embed_cg", "embed_cg", "roundtrip_conf", "translate_forward", "reseed",
-            "foreign_rng", "forward", "repermute", "repermute", "reweight", "preset_positions", "map_copy"]
+            "foreign_rng", "forward", "repermute", "repermute", "reweight", "preset_positions", "map_copy", "bead_weights"]
     for _ in range(n_ops):
         kind = rng.choice(pool)
         op = {"op": kind, "m": rng.randrange(len(sources))}
@@ -127,6 +135,8 @@ def generate(run_seed, prop, tier="quick"):
                        "scale": rng.choice([1.0, 1.0, 1e-10, 1e8])})
         if kind == "preset_positions":
             op["how"] = rng.choice(["shared_zeros", "int_zeros", "own_zeros"])
+        if kind == "bead_weights":
+            op["seed"] = rng.randrange(2 ** 30)
         if kind == "map_copy":
             op["t"] = [rng.choice([1.0, -3.5, 10.0]) for _ in range(3)]
         ops.append(op)
@@ -445,8 +455,9 @@ def run_history(scenario):
             if not nodes:
                 continue
             wsum = sum(float(aa.nodes[n].get("weight", 1) or 0) for n in nodes)
-            if wsum == 0:
-                continue
+            wabs = sum(abs(float(aa.nodes[n].get("weight", 1) or 0)) for n in nodes)
+            if wsum == 0 or abs(wsum) < 1e-6 * wabs:
+                continue      # no weight-normalised average (weights cancel)
             want = sum(float(aa.nodes[n].get("weight", 1) or 0) * np.asarray(aa.nodes[n]["position"], dtype=float) for n in nodes) / wsum
             got = cg.nodes[bead].get("position")
             if got is None or np.shape(got) != (3,) or not np.allclose(got, want, rtol=1e-9, atol=1e-9):
@@ -536,8 +547,9 @@ def run_history(scenario):
                     check_forward(mol, seq)
                     for bead, old in before.items():
                         wsum = sum(float(aa.nodes[n].get("weight", 1) or 0) for n in mol.members.get(bead, []))
-                        if wsum == 0:
-                            continue   # a bead whose atoms all weigh 0 has no weight-normalised average
+                        wabs = sum(abs(float(aa.nodes[n].get("weight", 1) or 0)) for n in mol.members.get(bead, []))
+                        if wsum == 0 or abs(wsum) < 1e-6 * wabs:
+                            continue   # a bead whose atom weights sum to 0 has no weight-normalised average
                         new = np.asarray(cg.nodes[bead]["position"], dtype=float)
                         if not np.allclose(new - old, shift, rtol=0, atol=1e-7):
                             violate("C18.forward-map", "translating all atoms by %r moved bead %r by %r"
@@ -596,13 +608,22 @@ def run_history(scenario):
                                 sub.nodes[node]["weight"] = weight
                 for node in list(aa.nodes):
                     if rng.random() < op["fraction"]:
-                        weight = rng.choice([0.5, 2.0, 0.25, 4.0, 1.5]) * scale
+                        weight = rng.choice([0.5, 2.0, 0.25, 4.0, 1.5, 0.5, 2.0, -0.5]) * scale
                         aa.nodes[node]["weight"] = weight
                         for bead in aa.nodes[node].get("fragid", []):
                             sub = cg.nodes[bead].get("graph") if bead in cg.nodes else None
                             if sub is not None and node in sub.nodes:
                                 sub.nodes[node]["weight"] = weight
                 stats["fault:reweight:fired"] = stats.get("fault:reweight:fired", 0) + 1
+                event["out"] = "ok"
+            elif kind == "bead_weights":
+                # the user gives the beads weights of their own (for the next coarser mapping): a bead's position is
+                # the average of ITS ATOMS and does not depend on the weight the bead itself carries
+                import random
+                rng = random.Random(op["seed"])
+                for bead in cg.nodes:
+                    cg.nodes[bead]["weight"] = rng.choice([0.5, 2.0, 0.1, 3.0, 1.0, 72.0])
+                stats["fault:bead-weights-set:fired"] = stats.get("fault:bead-weights-set:fired", 0) + 1
                 event["out"] = "ok"
             elif kind == "reseed":
                 proxy.seed = op["seed"]
